@@ -8,6 +8,15 @@ T_E1 = "stateless model checking of the translated implementation (controlled sc
 NOTE_E1 = "Trusted: gosim translation rules (audited by construct counts), rt channel/select/WaitGroup semantics under sequential consistency (litmus-tested against the real runtime), harness bodies in /verif/harness. "
 
 CHECKS = {
+ "C01": dict(engine=E2, category="exploration", technique="bounded-exhaustive generation of struct shapes (static Go types generated at check time), differential byte-level comparison with the compiler's field selector", ref="DESIGN.md 4, 5/C01",
+  text="Every flat struct of 1..3 (4) fields over 8 size/alignment classes (584 / 4680 shapes), all value-embedding templates to depth 2 (depth 3: uniform / all), embedded non-struct types, duplicate and case-variant names, function-local types: for every focusable field the Lens and the Reflector derived by type and by name, and positionally through ForProductN/ForSpectrumN, are compared with the plain assignment on a twin struct, byte for byte including 256-byte guards around the struct and sentinel-filled padding, for all 9 ordered value pairs; Get == selector; returned pointer; GetPut/PutGet/PutPut.",
+  note="Ground truth is the compiler (selectors, plain assignment, pointer differences) - reflect is not used for offsets. amd64 only; layouts beyond the bounds are not covered."),
+ "C02": dict(engine=E2, category="exploration", technique="bounded-exhaustive generation of struct shapes (static Go types generated at check time), differential byte-level comparison with the compiler's field selector; exhaustive request tables per shape", ref="DESIGN.md 4, 5/C02",
+  text="For every shape (incl. pointer-embedded structs at each level): every (name, requested type) request with all other field types, a distinct named type of the same underlying type, the bare underlying type, foreign types and same-printed-name local types must panic; absent types, unknown/empty names, too few names (also as a sub-slice with spare capacity), containers *S/**S/[]S/[1]S/map/int must panic; Reflector Gett/Putt with S by value, *Other, *Twin (identical underlying struct), **S, nil, typed nil, uintptr, unsafe.Pointer must panic and leave memory byte-identical; a focus behind an embedded pointer is either refused or must really go through the pointer.",
+  note="Same ground truth as C01."),
+ "C03": dict(engine=E2, category="exploration", technique="bounded-exhaustive generation of struct shapes; expected unfolding computed from the generator's own description", ref="DESIGN.md 4, 5/C03",
+  text="hseq.New[T]() equals the generator's depth-first listing (names, tag keys, declared types, PureType, Anonymous, consecutive IDs) for every shape incl. pointer embedding and duplicate / case-variant names; RootOffs+Offset equals the real offset (pointer difference through selectors) for entries not behind a pointer; ForName/ForNameMaybe (first match, exact, absent keys), ForType/New1 (first match, absent and same-printed-name types panic), New[T](names...) for all permutations of <=3 keys, NewN with N distinct types in both orders, FMap and FMap1..9 positional.",
+  note="Recursive embedded-pointer types are outside the alphabet (unfold does not terminate on them; the listing is undefined)."),
  "C05": dict(engine=E1, category="model_checking", technique=T_E1, ref="DESIGN.md 3, 5/C05",
   text="Every interleaving (unbounded, state-cached) of producer, stage goroutine and one draining consumer per output, for every sequential stage, input 1..k (k<=3; 4 thorough), capacities 0..2, all 2^k predicate patterns and all Take n in 0..k+1: outputs equal the list function, each output and error channel closes, ForEach visits each element once in order, Take lets the producer complete at most n+cap sends, no deadlock and no goroutine left.",
   note=NOTE_E1 + "Elements are the distinct ints 1..k (the stages are parametric in the element type; predicate answers are enumerated instead)."),
